@@ -219,6 +219,11 @@ func ruleWalErrorClasses(c *Ctx, r *Reporter) {
 		if !ok {
 			return false, false
 		}
+		if isErrPredicateHelper(call.Call.StaticCallee()) {
+			if q := c.errorPredicates(call.Call.StaticCallee()); len(q.substrings)+len(q.sentinels) > 0 {
+				return true, false
+			}
+		}
 		switch staticName(call) {
 		case "strings.Contains":
 			return true, false
@@ -257,11 +262,39 @@ type errPreds struct {
 }
 
 // errorPredicates: the tests fn applies to error values (strings.Contains on the text, errors.Is / == against sentinels).
+// isErrPredicateHelper: a module function that takes an error and answers with one bool (`looksCorrupt(err)`): the
+// classification tests it makes count as tests of its caller.
+func isErrPredicateHelper(f *ssa.Function) bool {
+	if f == nil || len(f.Blocks) == 0 || f.Pkg == nil || !strings.HasPrefix(f.Pkg.Pkg.Path(), modPath) {
+		return false
+	}
+	res := f.Signature.Results()
+	if res.Len() != 1 || res.At(0).Type().String() != "bool" {
+		return false
+	}
+	for i := 0; i < f.Signature.Params().Len(); i++ {
+		if isErrorType(f.Signature.Params().At(i).Type()) {
+			return true
+		}
+	}
+	return false
+}
+
 func (c *Ctx) errorPredicates(fn *ssa.Function) errPreds {
+	return c.errorPredicatesD(fn, 0)
+}
+
+func (c *Ctx) errorPredicatesD(fn *ssa.Function, depth int) errPreds {
 	var p errPreds
 	AllInstrs(fn, false, func(_ *ssa.Function, ins ssa.Instruction) {
 		switch x := ins.(type) {
 		case *ssa.Call:
+			if h := x.Call.StaticCallee(); depth < 2 && isErrPredicateHelper(h) && h != fn {
+				q := c.errorPredicatesD(h, depth+1)
+				p.substrings = append(p.substrings, q.substrings...)
+				p.sentinels = append(p.sentinels, q.sentinels...)
+				p.eof, p.ueof, p.eofEq, p.ueofEq = p.eof || q.eof, p.ueof || q.ueof, p.eofEq || q.eofEq, p.ueofEq || q.ueofEq
+			}
 			if staticName(x) == "strings.Contains" {
 				if s, ok := constString(x.Call.Args[1]); ok {
 					p.substrings = append(p.substrings, s)
